@@ -1042,6 +1042,46 @@ def c17(ctx):
     return out
 
 
+def free_delegates(ctx):
+    """The free functions are thin: each calls the method of the same name on the process-wide scheduler, on every path, with the queue
+    and the job it was given; a future id is taken from an atomic counter (ids decide who owns a WaitingForPoll queue)."""
+    F = ctx.F
+    out = []
+    R = 'ORD-free'
+    for name in ('desync', 'sync', 'try_sync', 'future_desync', 'future_sync'):
+        fn = F.fn('desync::' + name)
+        key = '%s|delegates' % name
+        if not fn:
+            out.append(undecided(R, key, 'free function not found'))
+            continue
+        target = S + name
+        cs = [(bb, t) for bb, t in fn.calls() if (t['func'].get('fn') or '') == target]
+        others = [short(t['func'].get('fn') or '') for bb, t in fn.calls() if (t['func'].get('fn') or '').startswith(S) and (t['func'].get('fn') or '') != target]
+        if len(cs) == 1 and not others and fn.must_pass(0, set(fn.exits()), {cs[0][0]}):
+            bb, t = cs[0]
+            recv = render(fn.expr_of_operand(t['args'][0])) if t['args'] else ''
+            args_ = [render(fn.expr_of_operand(a)) for a in t['args'][1:]]
+            if 'scheduler(' in recv and args_[:2] == ['queue', 'job'] and (t['dest']['l'] == 0 or name in ('desync',)):
+                out.append(ok(R, key, 'calls scheduler().%s(queue, job) and returns its result' % name, fn=fn.name))
+            else:
+                out.append(bad(R, key, 'does not pass its own queue and job to scheduler().%s, or does not return its result (receiver %s, arguments %s)' % (name, recv, args_), fn=fn.name))
+        else:
+            out.append(bad(R, key, 'does not delegate to Scheduler::%s on every path (calls: %s)' % (name, ', '.join(sorted(set(others))) or 'none'), fn=fn.name))
+    fid = F.fn('desync::FutureId::new')
+    key = 'FutureId::new|unique'
+    if not fid:
+        out.append(undecided(R, key, 'anchor not found'))
+    else:
+        adds = [t for bb, t in fid.calls() if (t['func'].get('fn') or '').endswith('::fetch_add')]
+        ret = render(fid.expr_of_local(0))
+        step = adds[0]['args'][1] if adds and len(adds[0]['args']) > 1 else None
+        if len(adds) == 1 and 'fetch_add(' in ret and step is not None and step['k'] == 'const' and str(step.get('val')) not in ('0', 'None'):
+            out.append(ok(R, key, 'ids come from an atomic fetch_add with a non-zero step', fn=fid.name))
+        else:
+            out.append(bad(R, key, 'future ids are no longer drawn from an atomic counter with a non-zero step: two futures can carry the same id and both believe they own a queue parked in WaitingForPoll', fn=fid.name))
+    return out
+
+
 def rs_strength(ctx):
     """Reference strength of the handles that keep work alive while no caller holds it: the schedule owns the queues it lists (a Pending queue
     whose caller dropped every handle must still run), a PipeWaker owns the pipe context (between polls the input stream's waker is the only
